@@ -10,13 +10,24 @@ bool ossGraphFacet::LoadParent(const PictID child, const PictID parent) {
   } else {
     const auto iChild = Item2ID(child);
     const auto iParent = Item2ID(parent);
-    if (std::find(begin(graph.at(iChild)), end(graph.at(iChild)), iParent) != end(graph.at(iChild)) ||
-        std::find(begin(graph.at(iParent)), end(graph.at(iParent)), iChild) != end(graph.at(iParent))) {
+    if (std::find(begin(graph.at(iChild)), end(graph.at(iChild)), iParent) != end(graph.at(iChild))) {
       return false;
-    } else {
-      graph.at(iChild).emplace_back(iParent);
-      return true;
     }
+    // Note: the child must not be among the ancestors of its new parent, otherwise the edge closes a cycle
+    std::vector<bool> visited(size(graph), false);
+    std::vector<size_t> pending{ iParent };
+    while (!std::empty(pending)) {
+      const auto current = pending.back();
+      pending.pop_back();
+      if (current == iChild) {
+        return false;
+      } else if (!visited.at(current)) {
+        visited.at(current) = true;
+        pending.insert(end(pending), begin(graph.at(current)), end(graph.at(current)));
+      }
+    }
+    graph.at(iChild).emplace_back(iParent);
+    return true;
   }
 }
 
